@@ -1,0 +1,21 @@
+//go:build verif
+
+package parser
+
+// Contracts for the deductive verifier in /verif (build tag "verif" only; this
+// file contains no declarations and is not part of any normal build).
+//
+//@ mode int
+//@ implicit [C06]
+//
+// Wrap turns a token into a leaf node. Assumed about its input (established by the scanner while no
+// lexer error has been reported, see lexer/zz_contracts_verif.go kind_by_first): a string literal
+// token is at least its two quotes and begins with a quote.
+//@ func (tokenWrapper).Wrap [C06,C05]
+//@   requires dyntype(t) == typeid[token.Type]()
+//@   assumes[strlit_shape] strlitShape(t)
+//@   assumes[kind] token.EOL <= t.(token.Type).Type && t.(token.Type).Type <= token.NotSticky
+//@ pred strlitShape(t combinator.Token) bool := t.(token.Type).Type == token.StringLit ==> len(t.(token.Type).Value) >= 2 && strat(t.(token.Type).Value, 0) == '"'
+//
+//@ canary func (tokenWrapper).Wrap
+//@   ensures false
